@@ -128,9 +128,9 @@ def rand_mech(rng, nspec=None, malformed=False, max_rxn=8):
                 products.append((rng.choice(params), 1, rng.randrange(1, 17)))
             elif reactants and rng.random() < 0.3:
                 q = rng.choice(reactants)
-                products.append((q[0], q[1], rng.randrange(1, 17)))  # species on both sides
+                products.append((q[0], q[1], rng.randrange(0, 17)))  # species on both sides (a zero yield now and then)
             else:
-                products.append((rng.choice(names), 0, rng.choice([8, 8, 4, 2, 1, 3, 12, 16, 5])))
+                products.append((rng.choice(names), 0, rng.choice([8, 8, 4, 2, 1, 3, 12, 16, 5, 0])))
         if r == bad_at:
             if rng.random() < 0.5 or not products:
                 reactants.insert(rng.randrange(len(reactants) + 1), (99, 0))
